@@ -151,6 +151,74 @@ theorem runScript_keeps (script : List (Nat × Str)) : ∀ (h : Heap) (opts : Li
     refine ⟨k.trans (k2.weaken k.next), v2, (childLoaders h (opts.getD i none) d).2 :: more, ?_⟩
     rw [hm]; simp
 
+instance (h : Heap) (s : GoSlice) : Decidable (Valid h s) := by
+  cases s with
+  | none => exact isTrue trivial
+  | some t => unfold Valid; exact inferInstance
+
+/-- every model's list is valid and its local loader is anchored where the functional level says -/
+def LevelsOK (h : Heap) (models : List (GoSlice × Level)) : Prop :=
+  ∀ m ∈ models, Valid h m.1 ∧ localDir (read h m.1) = some m.2.lw
+
+theorem localDir_snoc (l : List (Option Loader)) (d : Str) : localDir (l ++ [some (.loc d)]) = some d := by
+  induction l with
+  | nil => simp [localDir]
+  | cons x rest ih => simp [localDir, ih]
+
+theorem getD_map_snd (models : List (GoSlice × Level)) (i : Nat) :
+    (models.map Prod.snd).getD i ⟨[], []⟩ = (models.getD i (none, ⟨[], []⟩)).2 := by
+  simp only [List.getD, List.getElem?_map]
+  cases models[i]? <;> rfl
+
+theorem heapDir_eq (h : Heap) (models : List (GoSlice × Level)) (hok : LevelsOK h models) (i : Nat) :
+    (localDir (read h (models.getD i (none, ⟨[], []⟩)).1)).getD [] = (models.getD i (none, ⟨[], []⟩)).2.lw := by
+  simp only [List.getD]
+  cases hm : models[i]? with
+  | none => simp [read, localDir]
+  | some m =>
+    have := hok m (List.mem_of_getElem? hm)
+    simp [this.2]
+
+theorem runIncl_refines (isDir : Str → Bool) (script : List NStep) :
+    ∀ (h : Heap) (models : List (GoSlice × Level)), LevelsOK h models →
+      ((runIncl isDir h models script).2.map Prod.snd = runInclF isDir (models.map Prod.snd) script) ∧
+        LevelsOK (runIncl isDir h models script).1 (runIncl isDir h models script).2 ∧
+        Keeps h.next h (runIncl isDir h models script).1 := by
+  induction script with
+  | nil => intro h models hok; exact ⟨rfl, hok, Keeps.refl _ _⟩
+  | cons st rest ih =>
+    intro h models hok
+    cases st with
+    | incl i p pd =>
+      have hlw := heapDir_eq h models hok i
+      simp only [runIncl, runInclF]
+      rw [hlw, getD_map_snd]
+      generalize (includeLevel isDir ⟨(models.getD i (none, ⟨[], []⟩)).2.lw, (models.getD i (none, ⟨[], []⟩)).2.cw⟩ p pd).2 = st'
+      obtain ⟨k, cv, _, cr⟩ := childLoaders_spec h (models.getD i (none, ⟨[], []⟩)).1 st'.lw
+      have hok' : LevelsOK (childLoaders h (models.getD i (none, ⟨[], []⟩)).1 st'.lw).1
+          (models ++ [((childLoaders h (models.getD i (none, ⟨[], []⟩)).1 st'.lw).2, st')]) := by
+        intro m hm
+        rcases List.mem_append.mp hm with hm | hm
+        · obtain ⟨v, l⟩ := hok m hm
+          obtain ⟨r1, _, v1⟩ := read_keeps h _ m.1 v k
+          exact ⟨v1, by rw [r1]; exact l⟩
+        · simp only [List.mem_singleton] at hm; subst hm
+          exact ⟨cv, by simp only; rw [cr]; exact localDir_snoc _ _⟩
+      obtain ⟨e, o, k2⟩ := ih _ _ hok'
+      refine ⟨?_, o, k.trans (k2.weaken k.next)⟩
+      rw [e]; simp
+    | ext i ref =>
+      simp only [runIncl, runInclF]
+      generalize (dir (absIn ((localDir (read h (models.getD i (none, ⟨[], []⟩)).1)).getD []) ref)) = d
+      obtain ⟨k, _, _, _⟩ := childLoaders_spec h (models.getD i (none, ⟨[], []⟩)).1 d
+      have hok' : LevelsOK (childLoaders h (models.getD i (none, ⟨[], []⟩)).1 d).1 models := by
+        intro m hm
+        obtain ⟨v, l⟩ := hok m hm
+        obtain ⟨r1, _, v1⟩ := read_keeps h _ m.1 v k
+        exact ⟨v1, by rw [r1]; exact l⟩
+      obtain ⟨e, o, k2⟩ := ih _ _ hok'
+      exact ⟨e, o, k.trans (k2.weaken k.next)⟩
+
 /-- child `i` reads `base` followed by the local loader of directory `i` -/
 def EachReads (h : Heap) (base : List (Option Loader)) : List GoSlice → List Str → Prop
   | [], [] => True
